@@ -927,6 +927,8 @@ fn main() {
         "writer" => writer_driver::run(&mut r, iters),
         #[cfg(all(feature = "help", feature = "autocomplete", feature = "history"))]
         "derive_help" => derive_driver::run(&mut r, iters),
+        #[cfg(all(feature = "help", feature = "autocomplete", feature = "history"))]
+        "derive_fail" => derive_driver::run_fail(&mut r, iters),
         "cli" => cli_driver::run(&mut r, iters, ""),
         d if d.starts_with("cli:") => cli_driver::run(&mut r, iters, &d[4..]),
         _ => {
